@@ -86,7 +86,7 @@ fn run_once(seed: u64, index: u64, rep: &mut Report, canary: u8, prior: Option<&
         Poll::Ready(o) => {
             // Zero-length reads do not select a buffer on some paths.
             w.ev(format!("setup-read:{}", o.brief()));
-            finish(w, seed, index, rep, 0, "setup-failed".into(), second);
+            finish(&mut w, seed, index, rep, 0, "setup-failed".into(), second);
             return snaps;
         }
         Poll::Pending => panic!("c15: pool read did not resolve"),
@@ -226,12 +226,12 @@ fn run_once(seed: u64, index: u64, rep: &mut Report, canary: u8, prior: Option<&
         // The model diverged: the rest would only repeat the finding.
         std::mem::forget(buf);
         w.poisoned = true;
-        finish(w, seed, index, rep, ops_done, desc, second);
+        finish(&mut w, seed, index, rep, ops_done, desc, second);
         return snaps;
     }
     if second {
         alloc::a10(|| drop(buf));
-        finish(w, seed, index, rep, ops_done, desc, second);
+        finish(&mut w, seed, index, rep, ops_done, desc, second);
         return snaps;
     }
     // Re-read into the spare capacity (the kernel appends).
@@ -273,7 +273,7 @@ fn run_once(seed: u64, index: u64, rep: &mut Report, canary: u8, prior: Option<&
                 }
                 _ => {
                     w.violation("C15", "reread-failed", "re-read did not resolve with Ok".to_string());
-                    finish(w, seed, index, rep, ops_done, desc, second);
+                    finish(&mut w, seed, index, rep, ops_done, desc, second);
                     return snaps;
                 }
             }
@@ -284,7 +284,7 @@ fn run_once(seed: u64, index: u64, rep: &mut Report, canary: u8, prior: Option<&
             w.complete(id2, 0, false);
             w.ring_poll();
             let _ = w.poll_slot(j);
-            finish(w, seed, index, rep, ops_done, desc, second);
+            finish(&mut w, seed, index, rep, ops_done, desc, second);
             return snaps;
         }
     }
@@ -310,7 +310,7 @@ fn run_once(seed: u64, index: u64, rep: &mut Report, canary: u8, prior: Option<&
             }
         }
     }
-    finish(w, seed, index, rep, ops_done, desc, second);
+    finish(&mut w, seed, index, rep, ops_done, desc, second);
     snaps
 }
 
@@ -321,7 +321,7 @@ fn run_case(seed: u64, index: u64, rep: &mut Report) {
     }
 }
 
-fn finish(mut w: World, seed: u64, index: u64, rep: &mut Report, ops: u64, desc: String, second: bool) {
+fn finish(w: &mut World, seed: u64, index: u64, rep: &mut Report, ops: u64, desc: String, second: bool) {
     w.collect_monitor_violations();
     if !w.poisoned {
         w.teardown();
